@@ -136,9 +136,40 @@ theorem frames_findLoopX (add rem : List Comp) (rels : List RelID) :
       | panic k s' => rfl
       | ok x w' => exact frames_findLoopX add rem rels ts _ w' o lg lk
 
+theorem foldl_exIdxStep_registerW (O : Table) (newT start : Nat) (rels : List RelID) :
+    ∀ (l : List Nat) (w : World),
+      l.foldl (exIdxStep O newT start) (registerW w rels)
+        = registerW (l.foldl (exIdxStep O newT start) w) rels
+  | [], _ => rfl
+  | i :: l, w => by
+    simp only [List.foldl_cons]
+    exact foldl_exIdxStep_registerW O newT start rels l (exIdxStep O newT start w i)
+
+/-- moving a table and flagging targets commute -/
+theorem exchangeTableW_registerW (w : World) (oldT newT : Nat) (rels : List RelID) :
+    exchangeTableW (registerW w rels) oldT newT = registerW (exchangeTableW w oldT newT) rels := by
+  unfold exchangeTableW
+  simp only []
+  have h1 : ∀ t, (registerW w rels).tbl t = w.tbl t := fun _ => rfl
+  have h2 : ∀ a, (registerW w rels).arch a = w.arch a := fun _ => rfl
+  rw [h1, h1, h2, foldl_exIdxStep_registerW]
+  rfl
+
+/-- the move loop started after the registration of the targets is the move loop followed by it -/
+theorem foldl_moveStepX_registerW (rels : List RelID) : ∀ (bts : List BatchTable) (w : World),
+    bts.foldl (moveStepX rels) (registerW w rels) = registerW (bts.foldl (moveStepX rels) w) rels
+  | [], _ => rfl
+  | b :: bts, w => by
+    simp only [List.foldl_cons]
+    have : moveStepX rels (registerW w rels) b = registerW (moveStepX rels w b) rels := by
+      simp only [moveStepX, exchangeTableW_registerW]
+    rw [this]
+    exact foldl_moveStepX_registerW rels bts (moveStepX rels w b)
+
 /-- without observers and callback, `exchangeBatch` with relations is — in the order in which it
-    runs since the repair of defect D27 —: the table selection, the lookup loop, `Lock`, the move
-    loop, `Unlock` -/
+    runs since the repair of defect D27 —: the table selection, the lookup loop, `registerTargets`
+    (ONCE, unconditionally: also when no table is selected or every selected table is empty — as
+    the Go code does), `Lock`, the move loop, `Unlock` -/
 theorem exchangeBatch_rel_eq_planFirst (run : ProbeRunner) (fo : FilterObj) (extra : List RelID)
     (add rem : List Comp) (rels : List RelID) (w : World) (hl : w.isLocked = false)
     (hne : (add.isEmpty && rem.isEmpty) = false) {ts : List Nat}
@@ -148,20 +179,23 @@ theorem exchangeBatch_rel_eq_planFirst (run : ProbeRunner) (fo : FilterObj) (ext
     {l' : Lock} {b : Nat} (hlk : w1.locks.lock = some (l', b))
     (hno : ∀ (evt : Nat), w1.obs.hasObservers evt = false) :
     exchangeBatch run fo extra add rem rels none w =
-      unlock b (bts.foldl (moveStepX rels) { w1 with locks := l' }) := by
-  have hno1 : ∀ (evt : Nat), ({ w1 with locks := l' } : World).obs.hasObservers evt = false := hno
+      unlock b (bts.foldl (moveStepX rels) { registerW w1 rels with locks := l' }) := by
+  have hlk' : (registerW w1 rels).locks.lock = some (l', b) := hlk
+  have hno1 : ∀ (evt : Nat),
+      ({ registerW w1 rels with locks := l' } : World).obs.hasObservers evt = false := hno
   have hno2 : ∀ (evt : Nat),
-      (bts.foldl (moveStepX rels) { w1 with locks := l' }).obs.hasObservers evt = false := by
+      (bts.foldl (moveStepX rels) { registerW w1 rels with locks := l' }).obs.hasObservers evt
+        = false := by
     intro evt; rw [foldl_moveStepX_obs]; exact hno evt
-  obtain ⟨s2, h2⟩ := loop2X rels bts [] { w1 with locks := l' }
+  obtain ⟨s2, h2⟩ := loop2X rels bts [] { registerW w1 rels with locks := l' }
   cases hr : rem.isEmpty <;> cases ha : add.isEmpty <;> rw [hr, ha] at hne <;>
   first
   | exact absurd hne (by decide)
   | (unfold exchangeBatch
      simp only [M.bind_apply, checkLocked_unlocked w hl, M.assert_apply, hr, ha, Bool.and_self,
       Bool.and_false, Bool.false_and, Bool.not_false, Bool.not_true, if_true, hts,
-      forIn_findLoopX, hfind, lock_ok hlk, M.get_apply, hno1, Bool.false_eq_true, if_false, h2,
-      Bool.and_false, hno2])
+      forIn_findLoopX, hfind, registerTargets_eq, lock_ok hlk', M.get_apply, hno1,
+      Bool.false_eq_true, if_false, h2, Bool.and_false, hno2])
 
 /-- when the lookup loop panics, `exchangeBatch` panics with the same class and the same state:
     the lock has not been taken (the repair of defect D27) -/
@@ -180,7 +214,9 @@ theorem exchangeBatch_rel_findLoop_panic (run : ProbeRunner) (fo : FilterObj) (e
       forIn_findLoopX, hfind])
 
 /-- without observers and callback, `exchangeBatch` with relations is: `Lock`, the table selection,
-    the lookup loop, the move loop, `Unlock` — the order before the repair of defect D27; still an
+    the lookup loop, the move loop, `registerTargets` (the registration the operation performs once
+    after the lookup loop commutes with the move loop: `foldl_moveStepX_registerW`), `Unlock` — the
+    order before the repair of defect D27; still an
     equation of the repaired operation, because the table selection and the lookup loop neither
     read nor write the lock (`exchangeBatch_rel_eq_planFirst` is the order in which it runs) -/
 theorem exchangeBatch_rel_eq (run : ProbeRunner) (fo : FilterObj) (extra : List RelID)
@@ -192,7 +228,7 @@ theorem exchangeBatch_rel_eq (run : ProbeRunner) (fo : FilterObj) (extra : List 
     (hfind : findLoopX add rem rels ts (false, []) { w with locks := l' } = .ok (rr, bts) w1)
     (hno : ∀ (evt : Nat), w1.obs.hasObservers evt = false) :
     exchangeBatch run fo extra add rem rels none w =
-      unlock b (bts.foldl (moveStepX rels) w1) := by
+      unlock b (registerW (bts.foldl (moveStepX rels) w1) rels) := by
   have hts' : getBatchTables fo extra w = .ok ts w :=
     ((frames_getBatchTables fo extra).of_reframe_ok (w := w) (o := w.obs) (lg := w.log) (lk := l')
       hts).1
@@ -204,8 +240,9 @@ theorem exchangeBatch_rel_eq (run : ProbeRunner) (fo : FilterObj) (extra : List 
     fun evt => by rw [← hobs]; exact hno evt
   have := exchangeBatch_rel_eq_planFirst run fo extra add rem rels w hl hne hts' hfind' hlocks hno'
   rw [this]
-  have e : ({ w1.reframe w.obs w.log w.locks with locks := l' } : World) = w1 := hw1.symm
-  rw [e]
+  have e : ({ registerW (w1.reframe w.obs w.log w.locks) rels with locks := l' } : World)
+      = registerW w1 rels := congrArg (fun X => registerW X rels) hw1.symm
+  rw [e, foldl_moveStepX_registerW]
 
 theorem exchangeTableW_more (w : World) (oldT newT : Nat) :
     (exchangeTableW w oldT newT).relationArchetypes = w.relationArchetypes ∧
